@@ -2,13 +2,18 @@ import S3V.Props.C05
 import S3V.Props.C06
 import S3V.Props.C10Sig
 /-!
-# Findings of C05 / C06 / C10 (signature clause): kernel-checked counterexamples to the FULL statements
+# Findings of C05 / C06 / C10 (signature clause): kernel-checked facts about concrete requests
 
-Outside the pass/fail gate. Each theorem exhibits a concrete request on which the model (which mirrors the unchanged
-code and agrees with it on the replayed witness, see `known_findings.d/sigv4.json` and `corpus/sigv4*.txt`) deviates
-from the specification. Hash and MAC are instantiated with constant functions where a verdict is evaluated: the
-deviations do not depend on them.
+Outside the pass/fail gate. State of the code: after the repairs b7c08fd, 4011296, 10af2bf.
+
+* OPEN deviations (counterexamples to the FULL statements): duplicate query names with unsorted values
+  (`sigv4-dup-query-unsorted`, header and presigned path) and, on the presigned path only, a name listed in
+  `X-Amz-SignedHeaders` that no header line carries (`sigv4-absent-signed-header`).
+* REPAIRED classes, kept as regression facts: on the former counterexamples the model (which mirrors the repaired code
+  and agrees with it on the replayed witnesses, `corpus/sigv4*.txt`) now equals the specification or refuses.
 -/
+deriving instance DecidableEq for Except
+
 namespace S3V.Findings.C05
 open S3V S3V.SigV4 S3V.C05
 
@@ -19,66 +24,180 @@ def base : Req :=
   { method := b!"GET", path := b!"/bkt/k", qs := [],
     headers := [(b!"host", b!"h"), (b!"x-amz-meta-a", b!"v")], signed := [b!"host", b!"x-amz-meta-a"], payload := .unsigned }
 
-/-- class `sigv4-inner-whitespace`: value `x  y` stays `x  y` in the code, becomes `x y` in the specification -/
-theorem inner_whitespace :
-    canonImpl sha0 none0 { base with headers := [(b!"host", b!"h"), (b!"x-amz-meta-a", b!"x  y")] } ≠
+/-! ### repaired (b7c08fd): former counterexamples now agree with the specification -/
+
+/-- former class `sigv4-inner-whitespace`: `x  y` is now written `x y` -/
+theorem inner_whitespace_repaired :
+    canonImpl sha0 none0 { base with headers := [(b!"host", b!"h"), (b!"x-amz-meta-a", b!"x  y")] } =
     canonSpec sha0 { base with headers := [(b!"host", b!"h"), (b!"x-amz-meta-a", b!"x  y")] } := by decide
 
-/-- class `sigv4-repeated-header`: two lines `x-amz-meta-a: a`, `x-amz-meta-a: b` give two canonical lines in the
-    code, one line `a,b` in the specification -/
-theorem repeated_header :
-    canonImpl sha0 none0 { base with headers := [(b!"host", b!"h"), (b!"x-amz-meta-a", b!"a"), (b!"x-amz-meta-a", b!"b")] } ≠
+/-- former class `sigv4-repeated-header`: two lines now give one canonical line `a,b` -/
+theorem repeated_header_repaired :
+    canonImpl sha0 none0 { base with headers := [(b!"host", b!"h"), (b!"x-amz-meta-a", b!"a"), (b!"x-amz-meta-a", b!"b")] } =
     canonSpec sha0 { base with headers := [(b!"host", b!"h"), (b!"x-amz-meta-a", b!"a"), (b!"x-amz-meta-a", b!"b")] } := by
   decide
 
-/-- class `sigv4-dup-query-unsorted`: `prefix=b&prefix=a` keeps its order in the code, is sorted by value in the
-    specification -/
+/-! ### open: `sigv4-dup-query-unsorted` -/
+
+/-- `prefix=b&prefix=a` keeps its order in the code, is sorted by value in the specification -/
 theorem dup_query_unsorted :
     canonImpl sha0 none0 { base with qs := [(b!"prefix", b!"b"), (b!"prefix", b!"a")] } ≠
     canonSpec sha0 { base with qs := [(b!"prefix", b!"b"), (b!"prefix", b!"a")] } := by decide
 
-/-- class `sigv4-absent-signed-header`: a listed name without a header line is dropped by the code, kept (with an
-    empty value) by the specification -/
-theorem absent_signed_header :
+theorem C05_canon_impl_eq_spec_full_false : ¬ C05_canon_impl_eq_spec_full :=
+  fun h => dup_query_unsorted (h sha0 none0 _)
+
+/-- at the level of the canonicalisation function alone a listed name without a header line is still dropped; the
+    caller `v4_check_header_auth` refuses such requests before (10af2bf), the presigned path does not -/
+theorem absent_signed_header_function_level :
     canonImpl sha0 none0 { base with signed := [b!"host", b!"x-amz-meta-a", b!"x-not-there"] } ≠
     canonSpec sha0 { base with signed := [b!"host", b!"x-amz-meta-a", b!"x-not-there"] } := by decide
 
-theorem C05_canon_impl_eq_spec_full_false : ¬ C05_canon_impl_eq_spec_full :=
-  fun h => inner_whitespace (h sha0 none0 _)
-
-/-! ### the verdict -/
+/-! ### the verdict of header authentication -/
 
 def hmac0 : Bytes → Bytes → Bytes := fun _ _ => []
 def look0 : Bytes → Option Bytes := fun ak => if ak = b!"AK" then some b!"secret" else none
 
-/-- a context whose `Authorization` announces another algorithm and whose credential scope names another day than
-    `x-amz-date`; the presented signature is the one the code computes (empty under the constant MAC) -/
-def ctxOdd : Ctx :=
-  { http2 := false, authority := none, method := b!"GET", path := b!"/bkt/k", qs := [],
-    hs := [(b!"authorization", b!"AWS4-HMAC-SHA512 Credential=AK/20130524/r/s3/aws4_request,SignedHeaders=host,Signature="),
-           (b!"host", b!"h"), (b!"x-amz-content-sha256", b!"UNSIGNED-PAYLOAD"), (b!"x-amz-date", b!"20130525T000000Z")],
+def ctxWith (auth date : Bytes) (qs : List (Bytes × Bytes)) : Ctx :=
+  { http2 := false, authority := none, method := b!"GET", path := b!"/bkt/k", qs,
+    hs := [(b!"authorization", auth), (b!"host", b!"h"), (b!"x-amz-content-sha256", b!"UNSIGNED-PAYLOAD"),
+           (b!"x-amz-date", date)],
     body := [], bodyOnce := true, contentLength := none, decodedContentLength := none }
 
-/-- classes `sigv4-algorithm-unchecked` and `sigv4-credential-date-ignored`: accepted -/
-theorem odd_context_accepted :
-    v4CheckHeaderAuth sha0 hmac0 (some look0) ctxOdd = .accept b!"AK" b!"r" b!"s3" := by decide
+/-- repaired (4011296), former class `sigv4-algorithm-unchecked` -/
+theorem other_algorithm_refused :
+    v4CheckHeaderAuth sha0 hmac0 (some look0)
+      (ctxWith b!"AWS4-HMAC-SHA512 Credential=AK/20130524/r/s3/aws4_request,SignedHeaders=host,Signature="
+        b!"20130524T000000Z" []) = .err .NotImplemented := by decide
 
-/-- …although the parsed header names neither the algorithm the specification demands nor the day of `x-amz-date` -/
-theorem odd_context_shape :
-    ((getUnique ctxOdd.hs b!"authorization").bind parseAuthorization).map (fun a => (a.algorithm, a.credential.date)) =
-      some (b!"AWS4-HMAC-SHA512", b!"20130524") := by decide
+/-- repaired (4011296), former class `sigv4-credential-date-ignored` -/
+theorem other_scope_day_refused :
+    v4CheckHeaderAuth sha0 hmac0 (some look0)
+      (ctxWith b!"AWS4-HMAC-SHA256 Credential=AK/20130524/r/s3/aws4_request,SignedHeaders=host,Signature="
+        b!"20130525T000000Z" []) = .err .AuthorizationHeaderMalformed := by decide
+
+/-- repaired (10af2bf), former class `sigv4-absent-signed-header` -/
+theorem absent_signed_header_refused :
+    v4CheckHeaderAuth sha0 hmac0 (some look0)
+      (ctxWith b!"AWS4-HMAC-SHA256 Credential=AK/20130524/r/s3/aws4_request,SignedHeaders=host;x-not-there,Signature="
+        b!"20130524T000000Z" []) = .err .InvalidRequest := by decide
+
+/-- …while the same header without the absent name is accepted (the constant MAC makes the empty signature right) -/
+theorem plain_context_accepted :
+    v4CheckHeaderAuth sha0 hmac0 (some look0)
+      (ctxWith b!"AWS4-HMAC-SHA256 Credential=AK/20130524/r/s3/aws4_request,SignedHeaders=host,Signature="
+        b!"20130524T000000Z" []) = .accept b!"AK" b!"r" b!"s3" := by decide
+
+/-! the open class refutes the full verdict statement: a request signed as the specification says, with
+    `prefix=b&prefix=a`, is refused. Hash = identity and MAC = its message, so that signatures tell texts apart. -/
+
+def shaId : Bytes → Bytes := fun m => m
+def hmacMsg : Bytes → Bytes → Bytes := fun _ m => m
+
+def dupQs : List (Bytes × Bytes) := [(b!"prefix", b!"b"), (b!"prefix", b!"a")]
+
+def dupSpecRequest : SigV4Spec.Request :=
+  { method := b!"GET", path := b!"/bkt/k", query := dupQs,
+    headers := [(b!"authorization", []), (b!"host", b!"h"), (b!"x-amz-content-sha256", b!"UNSIGNED-PAYLOAD"),
+                (b!"x-amz-date", b!"20130524T000000Z")],
+    signedHeaders := [b!"host"], payload := b!"UNSIGNED-PAYLOAD" }
+
+/-- the signature the specification defines (the `authorization` line is not signed, its value is irrelevant) -/
+def dupSpecSig : Bytes :=
+  SigV4Spec.signature shaId hmacMsg b!"secret" b!"20130524T000000Z" ⟨b!"20130524", b!"r", b!"s3"⟩ dupSpecRequest
+
+def ctxDup : Ctx :=
+  ctxWith (b!"AWS4-HMAC-SHA256 Credential=AK/20130524/r/s3/aws4_request,SignedHeaders=host,Signature=" ++ dupSpecSig)
+    b!"20130524T000000Z" dupQs
+
+theorem spec_signed_dup_query_refused :
+    v4CheckHeaderAuth shaId hmacMsg (some look0) ctxDup = .err .SignatureDoesNotMatch := by decide +kernel
+
+def dupAuth : Authorization :=
+  ⟨b!"AWS4-HMAC-SHA256", ⟨b!"AK", b!"20130524", b!"r", b!"s3"⟩, [b!"host"], dupSpecSig⟩
 
 theorem C05_verdict_iff_full_false : ¬ C05_verdict_iff_full := by
   intro h
-  have hraw : orderedHeaders ctxOdd.hs = some ctxOdd.hs := by decide
-  obtain ⟨a, _, _, _, hc, halg, _⟩ :=
-    (h sha0 hmac0 look0 ctxOdd ctxOdd.hs b!"AK" b!"r" b!"s3" hraw).mp odd_context_accepted
-  have hp := hc.parsed
-  have hshape := odd_context_shape
-  rw [hp] at hshape
-  simp only [Option.map_some, Option.some.injEq, Prod.mk.injEq] at hshape
-  rw [hshape.1] at halg
-  exact absurd halg (by decide)
+  have hraw : orderedHeaders ctxDup.hs = some ctxDup.hs := by decide +kernel
+  have hchecks : HeaderChecks look0 ctxDup dupAuth b!"secret" ⟨2013, 5, 24, 0, 0, 0⟩ .unsigned :=
+    { parsed := by decide +kernel
+      algorithm := rfl
+      service := Or.inl rfl
+      mode := ⟨some .unsignedPayload, by decide +kernel, by decide, by decide +kernel, by decide⟩
+      key := by decide
+      date := ⟨b!"20130524T000000Z", by decide +kernel, by decide⟩
+      scopeDate := by decide
+      present := by decide +kernel }
+  have hsig : dupAuth.signature = SigV4Spec.signature shaId hmacMsg b!"secret" (AmzDate.fmtIso8601 ⟨2013, 5, 24, 0, 0, 0⟩)
+      ⟨dupAuth.credential.date, b!"r", b!"s3"⟩ ((ctxDup.req ctxDup.hs dupAuth.signedHeaders .unsigned).toSpec shaId) := by
+    decide +kernel
+  have hacc := (h shaId hmacMsg look0 ctxDup ctxDup.hs b!"AK" b!"r" b!"s3" hraw).mpr
+    ⟨dupAuth, b!"secret", ⟨2013, 5, 24, 0, 0, 0⟩, .unsigned, hchecks, rfl, rfl, rfl, hsig⟩
+  rw [spec_signed_dup_query_refused] at hacc
+  cases hacc
+
+/-! ### presigned URLs -/
+
+/-- position-sensitive 32-byte "MAC" of the message alone -/
+def hmacSum : Bytes → Bytes → Bytes := fun _ m =>
+  List.replicate 31 0 ++ [UInt8.ofNat (m.foldl (fun a b => (a * 31 + b.toNat) % 251) 7)]
+
+def preQs (signed sig : Bytes) : List (Bytes × Bytes) :=
+  [(b!"X-Amz-Algorithm", b!"AWS4-HMAC-SHA256"), (b!"X-Amz-Credential", b!"AK/20130524/r/s3/aws4_request"),
+   (b!"X-Amz-Date", b!"20130524T000000Z"), (b!"X-Amz-Expires", b!"60"), (b!"X-Amz-Signature", sig),
+   (b!"X-Amz-SignedHeaders", signed)]
+
+def ctxPreWith (signed sig : Bytes) : Ctx :=
+  { http2 := false, authority := none, method := b!"GET", path := b!"/bkt/k", qs := preQs signed sig,
+    hs := [(b!"host", b!"h")], body := [], bodyOnce := true, contentLength := none, decodedContentLength := none }
+
+def prePresigned (signedList : List Bytes) (sig : Bytes) : Presigned :=
+  ⟨b!"AWS4-HMAC-SHA256", ⟨b!"AK", b!"20130524", b!"r", b!"s3"⟩, ⟨2013, 5, 24, 0, 0, 0⟩, 60, signedList, sig⟩
+
+/-- the signature the CODE computes for a URL that lists the absent header `x-not-there` (the signature parameter is
+    not part of the signed text, so a placeholder may stand in while computing it) -/
+def absentSig : Bytes :=
+  presignedSignature shaId hmacSum (ctxPreWith b!"host;x-not-there" []) (prePresigned [b!"host", b!"x-not-there"] []) b!"secret"
+
+/-- open class `sigv4-absent-signed-header` of `sigv4pre`: accepted at 2013-05-24T00:00:10Z -/
+theorem presigned_absent_header_accepted :
+    v4CheckPresignedUrl shaId hmacSum (some look0) (1369353610 * 1000000000) (ctxPreWith b!"host;x-not-there" absentSig) =
+      .accept b!"AK" b!"r" b!"s3" := by decide +kernel
+
+/-- …although the specification's signature for that URL (which keeps `x-not-there` in the signed-header block) is
+    another text -/
+theorem presigned_absent_header_spec_differs :
+    SigV4Spec.signature shaId hmacSum b!"secret" b!"20130524T000000Z" ⟨b!"20130524", b!"r", b!"s3"⟩
+      (SigV4Spec.presignedRequest b!"GET" b!"/bkt/k" (preQs b!"host;x-not-there" absentSig) [(b!"host", b!"h")]
+        [b!"host", b!"x-not-there"]) ≠ absentSig := by decide +kernel
+
+theorem C06_presigned_iff_full_false : ¬ S3V.C06.C06_presigned_iff_full := by
+  intro h
+  have hraw : orderedHeaders (ctxPreWith b!"host;x-not-there" absentSig).hs = some (ctxPreWith b!"host;x-not-there" absentSig).hs := by
+    decide
+  obtain ⟨p, secret, date, hc, _, _, _, _, hsig⟩ :=
+    (h shaId hmacSum look0 _ _ _ b!"AK" b!"r" b!"s3" hraw).mp presigned_absent_header_accepted
+  have hp : parsePresigned (ctxPreWith b!"host;x-not-there" absentSig).qs =
+      some (prePresigned [b!"host", b!"x-not-there"] absentSig) := by decide +kernel
+  have hparsed := hc.parsed
+  rw [hp] at hparsed
+  injection hparsed with hparsed
+  subst hparsed
+  have hk := hc.key
+  have hk' : look0 b!"AK" = some b!"secret" := by decide
+  rw [show look0 (prePresigned [b!"host", b!"x-not-there"] absentSig).credential.accessKey = look0 b!"AK" from rfl, hk'] at hk
+  injection hk with hk
+  subst hk
+  exact presigned_absent_header_spec_differs hsig.symm
+
+/-- repaired (4011296), former class `sigv4-credential-date-ignored` of `sigv4pre` -/
+theorem presigned_other_scope_day_refused :
+    v4CheckPresignedUrl sha0 hmac0 (some look0) (1369440010 * 1000000000)
+      { ctxPreWith b!"host" b!"0000000000000000000000000000000000000000000000000000000000000000" with
+        qs := [(b!"X-Amz-Algorithm", b!"AWS4-HMAC-SHA256"), (b!"X-Amz-Credential", b!"AK/20130524/r/s3/aws4_request"),
+               (b!"X-Amz-Date", b!"20130525T000000Z"), (b!"X-Amz-Expires", b!"60"),
+               (b!"X-Amz-Signature", b!"0000000000000000000000000000000000000000000000000000000000000000"),
+               (b!"X-Amz-SignedHeaders", b!"host")] } = .err .AuthorizationQueryParametersError := by decide
 
 /-! ### POST form -/
 
@@ -87,73 +206,8 @@ def formOdd : List (Bytes × Bytes) :=
     (b!"x-amz-credential", b!"AK/20130524/r/s3/aws4_request"), (b!"x-amz-date", b!"20130525T000000Z"),
     (b!"x-amz-signature", b!"")]
 
-/-- class `post-credential-date-ignored` -/
-theorem post_credential_date_ignored :
-    v4CheckPostSignature hmac0 (some look0) formOdd = .accept b!"AK" b!"r" b!"s3" := by decide
-
-theorem C10_post_scope_is_credential_scope_full_false : ¬ S3V.C10.C10_post_scope_is_credential_scope_full := by
-  intro h
-  obtain ⟨_, _, c, d, _, hc, hdate⟩ := h hmac0 look0 formOdd b!"AK" b!"r" b!"s3" post_credential_date_ignored
-  obtain ⟨cv, hcv, hparse⟩ := hc.hasCredential
-  obtain ⟨dv, hdv, hdparse⟩ := hc.hasDate
-  have e1 : findFieldValue formOdd b!"x-amz-credential" = some b!"AK/20130524/r/s3/aws4_request" := by decide
-  have e2 : findFieldValue formOdd b!"x-amz-date" = some b!"20130525T000000Z" := by decide
-  rw [e1] at hcv; rw [e2] at hdv
-  injection hcv with hcv; injection hdv with hdv
-  subst hcv; subst hdv
-  have p1 : parseCredential b!"AK/20130524/r/s3/aws4_request" = some ⟨b!"AK", b!"20130524", b!"r", b!"s3"⟩ := by decide
-  have p2 : parseAmzDate b!"20130525T000000Z" = some ⟨2013, 5, 25, 0, 0, 0⟩ := by decide
-  rw [p1] at hparse; rw [p2] at hdparse
-  injection hparse with hparse; injection hdparse with hdparse
-  subst hparse; subst hdparse
-  exact absurd hdate (by decide)
-
-/-! ### presigned URL: the credential's scope date is ignored (class `sigv4-credential-date-ignored` of `sigv4pre`) -/
-
-def ctxPre : Ctx :=
-  { http2 := false, authority := none, method := b!"GET", path := b!"/bkt/k",
-    qs := [(b!"X-Amz-Algorithm", b!"AWS4-HMAC-SHA256"), (b!"X-Amz-Credential", b!"AK/20130524/r/s3/aws4_request"),
-           (b!"X-Amz-Date", b!"20130525T000000Z"), (b!"X-Amz-Expires", b!"60"),
-           (b!"X-Amz-Signature", b!"0000000000000000000000000000000000000000000000000000000000000001"),
-           (b!"X-Amz-SignedHeaders", b!"host")],
-    hs := [(b!"host", b!"h")], body := [], bodyOnce := true, contentLength := none, decodedContentLength := none }
-
-/-- a MAC that tells the scope days apart: keyed with the day of `X-Amz-Date` the chain ends in `…01`, keyed with the
-    day of the credential in `…02` -/
-def hmacDay : Bytes → Bytes → Bytes := fun key msg =>
-  if msg = b!"20130525" then [1]
-  else if msg = b!"20130524" then [2]
-  else if msg.length ≤ 20 then key                     -- region, service, terminator: pass the day marker on
-  else List.replicate 31 0 ++ [key.getLastD 0]         -- string to sign: 32 bytes ending in the marker
-
-/-- accepted at 2013-05-25T00:00:10Z: the code keys the chain with the day of `X-Amz-Date` -/
-theorem presigned_scope_date_ignored :
-    v4CheckPresignedUrl sha0 hmacDay (some look0) (1369440010 * 1000000000) ctxPre = .accept b!"AK" b!"r" b!"s3" := by
-  decide
-
-/-- …while the specification's signature under the scope of the credential (day 20130524) is another text -/
-theorem presigned_spec_signature_differs :
-    SigV4Spec.signature sha0 hmacDay b!"secret" b!"20130525T000000Z" ⟨b!"20130524", b!"r", b!"s3"⟩
-      (SigV4Spec.presignedRequest ctxPre.method ctxPre.path ctxPre.qs ctxPre.hs [b!"host"]) ≠
-    b!"0000000000000000000000000000000000000000000000000000000000000001" := by decide
-
-theorem C06_presigned_iff_full_false : ¬ S3V.C06.C06_presigned_iff_full := by
-  intro h
-  have hraw : orderedHeaders ctxPre.hs = some ctxPre.hs := by decide
-  obtain ⟨p, secret, date, hc, _, _, _, _, hsig⟩ :=
-    (h sha0 hmacDay look0 _ ctxPre ctxPre.hs b!"AK" b!"r" b!"s3" hraw).mp presigned_scope_date_ignored
-  have hp : parsePresigned ctxPre.qs = some ⟨b!"AWS4-HMAC-SHA256", ⟨b!"AK", b!"20130524", b!"r", b!"s3"⟩,
-      ⟨2013, 5, 25, 0, 0, 0⟩, 60, [b!"host"], b!"0000000000000000000000000000000000000000000000000000000000000001"⟩ := by
-    decide
-  have hparsed := hc.parsed
-  rw [hp] at hparsed
-  injection hparsed with hparsed
-  subst hparsed
-  have hk := hc.key
-  have hk' : look0 b!"AK" = some b!"secret" := by decide
-  rw [show look0 (Credential.accessKey ⟨b!"AK", b!"20130524", b!"r", b!"s3"⟩) = look0 b!"AK" from rfl, hk'] at hk
-  injection hk with hk
-  subst hk
-  exact presigned_spec_signature_differs hsig.symm
+/-- repaired (4011296), former class `post-credential-date-ignored` -/
+theorem post_other_scope_day_refused :
+    v4CheckPostSignature hmac0 (some look0) formOdd = .err .InvalidRequest := by decide
 
 end S3V.Findings.C05
